@@ -157,12 +157,16 @@ def damage_ops(rng, u, ranges, allow_known):
         elif kind == "rn_key":
             ops.append("DR %d %d key %d" % (k, n, rng.randrange(len(u.keys))))
         elif kind == "forge":
-            lens = [rng.choice([1, 3, 7]) for _ in range(rng.choice([1, 2, 4]))]
+            lens = [rng.choice([1, 3, 7]) for _ in range(rng.choice([1, 2, 4, 4, 5]))]
             offs = [0]
             for l in lens:
                 offs.append(offs[-1] + l)
-            hv = rng.choice(["ok", "ok", "short", "long", "hugecount"])
+            hv = rng.choice(["ok", "ok", "short", "long", "hugecount", "unordered", "unordered"])
             hoffs = list(offs)
+            if hv == "unordered" and len(hoffs) >= 4:
+                # offsets out of order across a pair boundary: the header must be rejected, never served or sliced
+                j = rng.randrange(1, len(hoffs) - 2)
+                hoffs[j], hoffs[j + 1] = hoffs[j + 1], hoffs[j]
             if hv == "short":
                 hoffs = hoffs[:-1]
             elif hv == "long":
@@ -302,6 +306,53 @@ def gen_case(rng, kind, big=False, allow_known=False):
         ops.append("O %d" % rng.choice([small, small, 2 * small]))
         for (kk, a, b) in ranges:
             ops += ["G %d %d %d" % (kk, a, b), "P %d %d %d" % (kk, a, b), "G %d %d %d" % (kk, a, b)]
+    elif kind == "forgehdr":
+        # entries planted while the cache is closed whose names agree with their length and checksum but whose headers are
+        # malformed in every way the parser must reject: too few / too many offsets, a huge count, offsets out of order (also
+        # across a pair boundary); every chunk of the claimed range is then read on its own
+        import struct
+        cap = 100000
+        ops.append("O %d" % cap)
+        rand_put_get(rng, u, ops, 2, bad=False)
+        ops.append("C")
+        k = rng.randrange(len(u.keys))
+        lens = [rng.choice([3, 7, 10]) for _ in range(rng.choice([4, 5, 6]))]
+        offs = [0]
+        for l in lens:
+            offs.append(offs[-1] + l)
+        variants = []
+        for j in range(1, len(offs) - 2):
+            h = list(offs)
+            h[j], h[j + 1] = h[j + 1], h[j]
+            variants.append(h)
+        variants += [offs[:-1], offs + [offs[-1] + 5], [5] + offs[1:]]
+        hoffs = rng.choice(variants)
+        content = struct.pack("<I", len(hoffs)) + b"".join(struct.pack("<I", o) for o in hoffs) + bytes((7 * i + 1) % 256 for i in range(offs[-1]))
+        s0 = rng.randrange(0, 3)
+        ops.append("DV %d %d %d %s" % (k, s0, s0 + len(lens), content.hex()))
+        ops.append("O %d" % cap)
+        for i in range(len(lens)):
+            ops.append("G %d %d %d" % (k, s0 + i, s0 + i + 1))
+        ops.append("G %d %d %d" % (k, s0, s0 + len(lens)))
+    elif kind == "dmgsub":
+        # an entry of several chunks damaged in its last chunk while the cache is closed; after the re-open a sub-range that does
+        # not touch the damage is put again (the put compares it with the stored file), then the whole range is read: the damaged
+        # bytes must not come back as a hit
+        cap = 100000
+        ops.append("O %d" % cap)
+        k = rng.randrange(len(u.keys))
+        n = len(u.keys[k][1])
+        a = rng.randrange(0, max(1, n - 2))
+        b = min(n, a + rng.choice([3, 4, 5]))
+        ops.append("P %d %d %d" % (k, a, b))
+        ops.append("C")
+        ops.append("DF %d 0 e%d %d" % (k, rng.randrange(1, 6), 1 | (rng.getrandbits(3) << 1)))
+        ops.append("O %d" % cap)
+        ops.append("P %d %d %d" % (k, a, a + 1))
+        ops.append("G %d %d %d" % (k, a, b))
+        ops.append("G %d %d %d" % (k, b - 1, b))
+        ops.append("P %d %d %d" % (k, a, b))
+        ops.append("G %d %d %d" % (k, a, b))
     elif kind == "openwhile":
         cap = 100000
         ops.append("O %d" % cap)
